@@ -446,10 +446,14 @@ class Model:
             cls = self.ns[s['name']]
             bases = [b.__name__ for b in cls.__bases__]
             anc = [b.__name__ for b in cls.__mro__]
-            abstract = util.is_abstract(cls)
+            # abstract as the documentation defines it (abc.ABC among the direct bases, or abstract methods), computed here and
+            # not through yatiml.util.is_abstract: the model must not inherit the implementation's own verdict
+            import abc as _abc
+            import inspect as _inspect
+            abstract = _inspect.isabstract(cls) or _abc.ABC in cls.__bases__
             if issubclass(cls, enum.Enum):
                 shape = '(ShEnum [' + '; '.join(coq_ustr(m) for m in cls.__members__) + '])'
-            elif util.is_string_like(cls):
+            elif issubclass(cls, (str, UserString, yatiml.String)):      # string-like as documented, not via yatiml.util
                 shape = 'ShStr'
             else:
                 ps = []
